@@ -741,6 +741,10 @@ func (e *Env) call(x *CallE) Val {
 		}
 		a, b := e.eval(x.Args[0]).(SliceV), e.eval(x.Args[1]).(SliceV)
 		return Sc{And(Eq(a.Base, b.Base), Eq(a.Off, b.Off), Eq(a.Len, b.Len)), boolTyp}
+	case "within":
+		// within(a, b): a is a sub-slice b[i:j] of b (same backing array, inside b's length)
+		a, b := e.eval(x.Args[0]).(SliceV), e.eval(x.Args[1]).(SliceV)
+		return Sc{And(Eq(a.Base, b.Base), Le(b.Off, a.Off, true), Le(Add(a.Off, a.Len), Add(b.Off, b.Len), true), Le(fx.idx(0), a.Len, true)), boolTyp}
 	case "suffixof":
 		// suffixof(a, b): a is b[j:] for some j (same backing array, same end) - what repeated a = a[k:] keeps
 		a, b := e.eval(x.Args[0]).(SliceV), e.eval(x.Args[1]).(SliceV)
